@@ -69,7 +69,7 @@ def sigStep (d : DS) : List String → DS × List String
     let s := runLoop sc { d.s with trace := [] } (nat! l)
     let d := { d with s := s }
     (d, s.trace.reverse.map showCb ++ [s!"ran {nat! l}"] ++ obs d)
-  | ["runraise", l, g] =>
+  | "runraise" :: l :: g :: cops =>
     if l.toNat?.isNone || nat! l ≥ d.nl || !sigs.contains (nat! g) then (d, ["bad-op"]) else
     let sc : Script := fun k => ((d.script.find? (·.1 = k)).map (·.2)).getD []
     -- the check handle keeps the loop alive: poll phase, check phase (raise), closing phase
@@ -77,7 +77,7 @@ def sigStep (d : DS) : List String → DS × List String
     let (s2, r) := match s1.disp (nat! g) with
       | .dflt => (s1, "raise skipped-default")
       | _ => (deliver s1 (nat! g), "raised")
-    let s3 := runClosing { s2 with trace := [] } (nat! l)
+    let s3 := runClosing { runOps s2 (cops.filterMap parseOp) with trace := [] } (nat! l)
     let d := { d with s := s3 }
     (d, s1.trace.reverse.map showCb ++ ["check"] ++ obs { d with s := s1 } ++ [r] ++ s3.trace.reverse.map showCb ++ [s!"ran {nat! l}"] ++ obs d)
   | ["start", h, g] => match hid? d h with
